@@ -264,6 +264,8 @@ def gen_model(rng, foreign=True):
     if foreign:
         pool = [
             "typedef struct UserThing {\n    int32_t x;\n    int32_t y;\n} UserThing;\n",
+            "/**\n * Gr\u00f6\u00dfe in \u00b5m \u2014 \u00a9 M\u00fcller, \u65e5\u672c\u8a9e\n */\ntypedef struct UserMetric {\n    double um;\n} UserMetric;\n",
+            "#define USER_VENDOR \"M\u00fcller & S\u00f8n \u2122\"\n",
             "typedef uint32_t UserHandle;\n",
             "typedef struct MyVtblHolder {\n    const void *p;\n} MyVtblHolder;\n",
             "typedef struct ContextInfo {\n    uint8_t kind;\n} ContextInfo;\n",
@@ -719,6 +721,10 @@ def render_cpp(model):
         add("template<typename T = void>\nstruct MaybeUninit;\n")
     add(DOC_CARC + "template<typename T>\nstruct CArc {\n    const T *instance;\n    const T *(*clone_fn)(const T*);\n    void (*drop_fn)(const T*);\n};\n")
     add(DOC_CBOX + "template<typename T>\nstruct CBox {\n    T *instance;\n    void (*drop_fn)(T*);\n};\n")
+    if getattr(model, "cpp_out_fn", False):
+        # an exported function with an integer-coded result: cbindgen prints the output slot as
+        # `MaybeUninit<T> *`, which the tool rewrites to `T *`
+        add("extern \"C\" {\n\nint32_t load_thing(uint32_t id, MaybeUninit<CBox<void>> *ok_out);\n\n} // extern \"C\"\n")
     gnames = []
     for inst in model.insts:
         if inst.kind == "group" and inst.name not in gnames:
@@ -787,6 +793,9 @@ def render_cpp(model):
 
 
 FOREIGN_POOL_CPP = [
+    # text outside ASCII (doc comments, string macros): kept byte for byte
+    "/**\n * Gr\u00f6\u00dfe in \u00b5m \u2014 \u00a9 M\u00fcller, \u65e5\u672c\u8a9e\n */\nstruct UserMetric {\n    double um;\n};\n",
+    "#define USER_VENDOR \"M\u00fcller & S\u00f8n \u2122\"\n",
     "struct UserThing {\n    int32_t x;\n    int32_t y;\n};\n",
     "using UserHandle = uint32_t;\n",
     "struct MyVtblHolder {\n    const void *p;\n};\n",
@@ -825,6 +834,7 @@ def gen_model_cpp(rng):
             if me.ret[1] == "self" and rng.random() < 0.5:
                 me.recv = "own"
     m.cpp_maybe_uninit = rng.random() < 0.85
+    m.cpp_out_fn = m.cpp_maybe_uninit and rng.random() < 0.6
     m.config = {k: v for k, v in m.config.items() if k != "function_prefix"}   # (C only)
     return m
 
